@@ -76,6 +76,9 @@ type TumblingWindow struct {
 	// timer for triggering window periodically (used for ProcessingTime)
 	timer       *time.Ticker
 	currentSlot *types.TimeSlot
+	// anchorSlot is the slot created from the first event while no window has
+	// fired yet (event time); see the re-anchoring in Add.
+	anchorSlot *types.TimeSlot
 	// initChan for window initialization
 	initChan    chan struct{}
 	initialized bool
@@ -189,6 +192,7 @@ func (tw *TumblingWindow) Add(data any) {
 			// Alignment granularity equals window size (e.g., 2s window aligns to 2s boundaries)
 			alignedStart := alignWindowStart(eventTime, tw.size)
 			tw.currentSlot = tw.createSlotFromStart(alignedStart)
+			tw.anchorSlot = tw.currentSlot
 			debugLog("Add: initialized with EventTime, eventTime=%v, alignedStart=%v, window=[%v, %v)",
 				eventTime.UnixMilli(), alignedStart.UnixMilli(),
 				tw.currentSlot.Start.UnixMilli(), tw.currentSlot.End.UnixMilli())
@@ -219,6 +223,15 @@ func (tw *TumblingWindow) Add(data any) {
 		}
 	}
 
+	// An on-time event older than the window anchored by the first event would
+	// otherwise stay buffered for ever (currentSlot only moves forward). While no
+	// window has fired yet, re-anchor the current window at that event's interval.
+	if timeChar == types.EventTime && tw.currentSlot != nil && tw.currentSlot == tw.anchorSlot &&
+		eventTime.Before(*tw.currentSlot.Start) &&
+		(tw.watermark == nil || !tw.watermark.IsEventTimeLate(eventTime)) {
+		tw.currentSlot = tw.createSlotFromStart(alignWindowStart(eventTime, tw.size))
+		tw.anchorSlot = tw.currentSlot
+	}
 	row := types.Row{
 		Data:      data,
 		Timestamp: eventTime,
